@@ -17,7 +17,7 @@ package cachekv
 // container/list and the KVPair items the sorted list holds are library state: no contract speaks about them
 //@ library_state Ha_Ptr Hc_Slice Hc_S_container_list_Element_v Hc_S_container_list_List_v
 
-//@ guarded Store.cache, Store.unsortedCache, Store.sortedCache by Store.mtx
+//@ guarded Store.cache, Store.unsortedCache, Store.sortedCache, Store.parent by Store.mtx
 
 //@ invariant cwf: store.cache != nil && store.unsortedCache != nil && (forall k string :: has(store.cache, k) ==> (store.cache[k] != nil && (store.cache[k].deleted ==> store.cache[k].value == nil && store.cache[k].dirty) && (store.cache[k].dirty && !store.cache[k].deleted ==> store.cache[k].value != nil) && (!store.cache[k].dirty ==> store.cache[k].value == pkv.m[store.parent][k]))) && (forall k string :: has(store.unsortedCache, k) ==> has(store.cache, k) && store.cache[k].dirty)
 
